@@ -28,6 +28,9 @@ type Case struct {
 	// buffer / box
 	Radius   float64 `json:"radius,omitempty"`
 	Segments int     `json:"segments,omitempty"`
+	// line: the lines and the query point are handed to geom multiplied exactly by 2^LineScaleExp; the expected length
+	// and distance are those of the unscaled case times 2^LineScaleExp (exact)
+	LineScaleExp int `json:"line_scale_exp,omitempty"`
 }
 
 func ip(x, y int) vkit.P2 { return vkit.MkP(float64(x), float64(y)) }
@@ -254,6 +257,9 @@ func gen(t *rapid.T) Case {
 		}
 		c.AsMulti = nl > 1 || rapid.Bool().Draw(t, "asmulti")
 		c.Pt = vkit.MkP(cg.Draw(t, "px"), cg.Draw(t, "py"))
+		if rapid.IntRange(0, 2).Draw(t, "linescaled") == 1 {
+			c.LineScaleExp = rapid.OneOf(rapid.IntRange(-60, 60), rapid.IntRange(-1000, 900)).Draw(t, "linescale")
+		}
 	case "buffer":
 		c.Pt = vkit.MkP(rapid.Float64Range(-1e3, 1e3).Draw(t, "px"), rapid.Float64Range(-1e3, 1e3).Draw(t, "py"))
 		c.Radius = rapid.OneOf(rapid.Just(0.0), rapid.Float64Range(0, 1e4)).Draw(t, "radius")
@@ -429,8 +435,31 @@ func runLine(c Case) (v vkit.Verdict) {
 	wantD := math.Inf(1)
 	interior := false
 	scale := 1.0
+	sc, inv := math.Ldexp(1, c.LineScaleExp), math.Ldexp(1, -c.LineScaleExp)
+	if c.LineScaleExp != 0 {
+		exact := true
+		for _, q := range append(vkit.GJ{T: "MultiLineString", Rings: c.Lines}.Flatten(), c.Pt) {
+			for _, f := range q {
+				if x := float64(f); (x*sc)*inv != x || (x != 0 && math.Abs(x*sc) < 1e-290) || math.IsInf(x*sc, 0) {
+					exact = false
+				}
+			}
+		}
+		if exact {
+			v.Class("line_scaled_by_power_of_two")
+		} else {
+			sc, inv = 1, 1
+		}
+	}
+	scaled := func(l []vkit.P2) []vkit.P2 {
+		out := make([]vkit.P2, len(l))
+		for i, q := range l {
+			out[i] = vkit.MkP(float64(q[0])*sc, float64(q[1])*sc)
+		}
+		return out
+	}
 	for _, l := range c.Lines {
-		ml = append(ml, geom.LineString(vkit.GJ{T: "LineString", Pts: l}.Geom().(geom.LineString)))
+		ml = append(ml, geom.LineString(vkit.GJ{T: "LineString", Pts: scaled(l)}.Geom().(geom.LineString)))
 		for i := 0; i+1 < len(l); i++ {
 			seg := math.Hypot(float64(l[i+1][0])-float64(l[i][0]), float64(l[i+1][1])-float64(l[i][1]))
 			y := seg - comp
@@ -463,13 +492,21 @@ func runLine(c Case) (v vkit.Verdict) {
 	if !c.AsMulti && len(ml) == 1 {
 		L = ml[0]
 	}
+	wantLen *= sc // exact: a power of two
+	if math.IsInf(wantLen, 0) {
+		v.Class("length_not_representable_skipped")
+		return v
+	}
 	if got := L.Length(); vkit.Off(got-wantLen, 1e-12*wantLen) {
-		return v.Fail("%T.Length() = %.17g, sum of segment lengths %.17g", L, got, wantLen)
+		return v.Fail("%T.Length() = %.17g, sum of segment lengths %.17g (lines multiplied by 2^%d)", L, got, wantLen, c.LineScaleExp)
 	}
 	if got := op.Length(L); vkit.Off(got-wantLen, 1e-12*wantLen) {
-		return v.Fail("op.Length(%T) = %.17g, sum of segment lengths %.17g", L, got, wantLen)
+		return v.Fail("op.Length(%T) = %.17g, sum of segment lengths %.17g (lines multiplied by 2^%d)", L, got, wantLen, c.LineScaleExp)
 	}
-	got := L.Distance(c.Pt.Pt())
+	got := L.Distance(vkit.MkP(float64(c.Pt[0])*sc, float64(c.Pt[1])*sc).Pt()) * inv
+	if math.IsInf(sc, 0) || sc == 0 {
+		return v
+	}
 	if math.IsInf(wantD, 1) {
 		v.Class("line_without_segment")
 		if !math.IsInf(got, 1) {
@@ -549,7 +586,7 @@ func TestProp(t *testing.T) {
 			"unclosed; 'closed_opposite' = all rings closed, holes wound opposite to the shell, optionally all reversed; 'closed_any' = closed, arbitrary per-ring " +
 			"winding), optionally mapped by a float similarity (scale from 1e-100 to 1e100, translation for moderate scales); exact area and centroid from math/big integer moments. Area/MultiPolygon.Area for " +
 			"every spelling; MultiPolygon.Centroid for closed rings under every per-ring winding; Polygon.Centroid, op.Centroid and op.Area for closed rings with " +
-			"opposite holes; centroid inside the bounding box. Line strings / multi-line strings (0-12 vertices, 1 in 50 with 250-1100; lattice or float; 1 vertex in 12 repeats its predecessor - a zero-length segment - and 1 in 12 revisits an earlier vertex) for Length (compensated sum) and " +
+			"opposite holes; centroid inside the bounding box. Line strings / multi-line strings (0-12 vertices, 1 in 50 with 250-1100; lattice or float; 1 vertex in 12 repeats its predecessor - a zero-length segment - and 1 in 12 revisits an earlier vertex; a third of the cases handed to geom multiplied exactly by 2^k, k in +-60 or -1000..900) for Length (compensated sum) and " +
 			"Distance (independent point-segment formula); Point.Buffer vertices; Bounds.Area/Centroid. Every polygon case is counted non-trivial (each is one orbit " +
 			"element of a shape with holes/members/orientation choice), line cases when the nearest feature is a segment interior or >=2 members, buffers with radius>0. " +
 			"Distinct by case hash.",
